@@ -263,6 +263,20 @@ def monitor(lm, cfg, t, c):
             order = [h for h, _ in c['hf']]
             counts = [want.get(h, 0) for h in order]
             uniform = all(x == c['ppn'] for x in counts[:-1]) and (not counts or counts[-1] <= c['ppn'])
+            # whether PALS can express the placement is a matter of the placement: its ranks grouped by host, every host
+            # but the last one used holding the same number of ranks (no fewer on the last).  Then the host file has to
+            # name the hosts in the order the ranks use them - PALS fills the hosts in file order
+            used = []
+            for sl in t['slots']:
+                if not used or used[-1] != sl['host']: used.append(sl['host'])
+            if len(set(used)) == len(used) and used:
+                cw = [want[h] for h in used]
+                per_host = {h: sorted(tuple(sorted(sl['cores'])) for sl in t['slots'] if sl['host'] == h) for h in used}
+                matters = len(set(cw)) > 1 or len(set(map(tuple, per_host.values()))) > 1     # (equal hosts may be swapped)
+                if all(x == cw[0] for x in cw[:-1]) and cw[-1] <= cw[0] and order != used and sorted(order) == sorted(used) and matters:
+                    bad.append(('mpiexec-pals:host-file-order-differs-from-placement',
+                                'the ranks use the hosts in the order %s (%s ranks each), the host file lists %s: with --ppn %s the ranks '
+                                'land on other hosts than placed' % (used, cw, order, c['ppn'])))
             if uniform and sorted(order) == sorted(want):
                 got = dict(want)                 # ranks fall where the placement has them
                 # rank i of the command is slot i only if the slots are grouped by host in file order
